@@ -1539,6 +1539,15 @@ def gen_checkrepair(seed, tier, focus="C45"):
         muts.append([srv, sh, kind, ch.randrange("faults", ("mp1", j), 1 << 30), ch.randrange("faults", ("mp2", j), 1 << 30)])
     case["muts"] = muts
     case["faults"] = []
+    if ch.chance("faults", "repair-write-faults", 0.3):
+        # a server chosen for a replacement share accepts the allocation and then fails while the share is written (the
+        # repairer uploads with happy=0 and carries on without it): what the results report must still be what exists
+        for j in range(ch.randint("faults", "nrwf", 1, 3)):
+            case["faults"].append([ch.pick("faults", ("rwf-kind", j), ["error", "error", "disconnect_before", "disconnect_after"]),
+                                   ch.randrange("faults", ("rwf-srv", j), max(cfg["n"], cfg["nservers"])),
+                                   ch.pick("faults", ("rwf-meth", j), ["write", "write", "close", "allocate_buckets"]),
+                                   ch.randint("faults", ("rwf-nth", j), 1, 8), 1.0,
+                                   ch.chance("faults", ("rwf-every", j), 0.5)])
     case["profile"] = "checkrepair"
     case["ops"] = [["check", ch.chance("workload", "verify1", 0.6)], ["repair", ch.chance("workload", "verify2", 0.7)]]
     cfg["badseg"] = None
@@ -1674,6 +1683,11 @@ def exec_checkrepair(case):
         # ---- repair through the verify-cap only
         verify2 = case["ops"][1][1]
         vnode2 = ck.create_node_from_uri(vcap)
+        for fl in case.get("faults", []):
+            kind_, srv_, meth_, nth_, secs_, every_ = fl
+            if srv_ < len(g.servers):
+                g.net.add_fault({"kind": kind_, "callee": g.servers[srv_].name, "caller": ck.sim_name, "method": meth_, "nth": nth_, "secs": secs_,
+                                 "every": bool(every_) and kind_ == "error"})
         str_, crr = run(vnode2.check_and_repair(Monitor(), verify=verify2, add_lease=bool(cfg.get("add_lease"))))
         truth2 = lenient_where if verify2 else present
         after_files = {(s.name, shnum): raw for s in g.servers for shnum, raw in s.shares_of(si).items()}
@@ -1709,6 +1723,15 @@ def exec_checkrepair(case):
                         for s_ in g.servers:
                             for shn_ in s_.shares_of(si):
                                 where2.setdefault(shn_, set()).add(s_.name)
+                    try:
+                        psm = {sh: set(sid2name.get(srv.get_serverid()) for srv in srvs)
+                               for sh, srvs in crr.get_post_repair_results().get_sharemap().items()}
+                    except Exception:
+                        psm = {}
+                    ghost = {sh: sorted(x for x in v if x and x not in where2.get(sh, ())) for sh, v in psm.items()}
+                    ghost = {sh: v for sh, v in ghost.items() if v}
+                    if ghost:
+                        bad("post-repair-share-missing", "the post-repair results list shares that are not (valid) on those servers: %r (faults=%r)" % (ghost, case.get("faults")))
                     if len(where2) < n:
                         bad("repair-not-healthy", "repair reported success but only %d distinct valid shares are on disk (N=%d)" % (len(where2), n))
                     if len(new_valid) >= k:
@@ -1739,7 +1762,7 @@ def exec_checkrepair(case):
                     bad("repair-skipped", "no repair attempted although only %d distinct good shares (N=%d, verify=%s)" % (len(truth2), n, verify2))
         elif str_ == "err":
             probe("repair-err-" + err_name(crr))
-            if len(identical_where) >= k and verify2:
+            if len(identical_where) >= k and verify2 and not case.get("faults"):
                 bad("repair-failed", "check_and_repair failed with %s although %d valid shares (k=%d) exist: %s" % (
                     err_name(crr), len(valid_where), k, crr.getErrorMessage()[:300]), sig="C45.repair-failed." + err_name(crr))
         else:
